@@ -102,7 +102,7 @@ func (a *Activation) callStatic(fn *ssa.Function, args []Val, bindings []Val, st
 	}
 	if cons := t.eng.con.Funcs[name]; len(cons) > 0 && !(a.root && a.fn == target && false) {
 		con := pickContract(cons, "")
-		if con != nil && !(con.Inline && t.eng.inModule(target) && a.depth < maxInlineDepth) {
+		if con != nil && !(con.Inline && t.eng.inModule(target) && a.depth < maxInlineDepth) && !a.inlineForced(name) {
 			return a.applyContract(con, target, args, bindings, st, pos, sig)
 		}
 	}
@@ -290,6 +290,7 @@ func (a *Activation) opaqueCallX(fv Val, args []Val, sig *types.Signature, st *S
 			}
 			if kd == KFunc {
 				t.funcValFact(st.pc, term)
+				t.funcTypeFact(st.pc, term, LT)
 			}
 			return term
 		})
@@ -343,6 +344,56 @@ func (a *Activation) opaqueWithContract(con *FuncContract, recv Val, method stri
 		}
 	}
 	return out, res
+}
+
+// hintedTypes: types named by 'dyntype <iface> <type>' clauses of the root contract for interface IT.
+func (a *Activation) hintedTypes(IT types.Type) []types.Type {
+	con := a.rootContract()
+	if con == nil {
+		return nil
+	}
+	var out []types.Type
+	for _, c := range con.Clauses {
+		if c.Kind != "dyntype" {
+			continue
+		}
+		iname, tname := splitWord(c.Expr)
+		if !strings.HasSuffix(typeKey(IT), iname) {
+			continue
+		}
+		env := &ExprEnv{t: a.t, pkg: con.Pkg, src: c.Src}
+		e, err := parseSpec(tname)
+		if err != nil {
+			a.t.errorf("%s: bad dyntype clause", c.Src)
+			continue
+		}
+		T := env.resolveType(e)
+		if T == nil {
+			a.t.errorf("%s: unknown type %s", c.Src, tname)
+			continue
+		}
+		out = append(out, T)
+	}
+	return out
+}
+
+// inlineForced: the root contract asks to see through this callee's contract.
+func (a *Activation) inlineForced(name string) bool {
+	con := a.rootContract()
+	if con == nil {
+		return false
+	}
+	for _, c := range con.Clauses {
+		if c.Kind != "inlinecalls" {
+			continue
+		}
+		for _, n := range splitList(c.Expr) {
+			if strings.HasSuffix(name, n) {
+				return true
+			}
+		}
+	}
+	return false
 }
 
 func (a *Activation) hasClause(kind string) bool {
@@ -426,7 +477,7 @@ func (t *Task) mthTerm(method string, recv string) string {
 	id := t.eng.methID(method)
 	term := sApp(f, sInt(int64(id)), recv)
 	key := "mthinj:" + term
-	if !t.pureDone[key] {
+	if !t.pureDone[key] && t.quantDepth == 0 {
 		t.pureDone[key] = true
 		fm := t.declareFun("$mthm", []string{"Int"}, "Int")
 		fr := t.declareFun("$mthr", []string{"Int"}, "Int")
@@ -442,13 +493,27 @@ func (t *Task) funcValFact(pc, term string) {
 	t.assume(pc, sNot(sEq(sApp(t.fkind(), term), "3")))
 }
 
+// funcTypeFact: function values of different Go types are different values.
+func (t *Task) funcTypeFact(pc, term string, T types.Type) {
+	if T == nil {
+		return
+	}
+	if _, ok := T.Underlying().(*types.Signature); !ok {
+		return
+	}
+	ft := t.declareFun("$ftype", []string{"Int"}, "Int")
+	t.assume(pc, sOr(sEq(term, "0"), sEq(sApp(ft, term), sInt(int64(t.eng.tagOf(T.Underlying()))))))
+}
+
 func (a *Activation) invoke(recv Val, m *types.Func, args []Val, sig *types.Signature, st *State, pos token.Pos) (*State, []Val) {
 	t := a.t
 	a.obligeSafety(st, "nil", "method call on nil interface", sNot(sEq(recv.S, "0")), pos)
 	// 1. statically known dynamic type
 	if recv.Dyn != nil {
-		if fn := t.eng.methodOf(recv.Dyn, m); fn != nil {
+		if fn, path := t.eng.methodOfPath(recv.Dyn, m); fn != nil {
 			rv := t.unbox(st, recv, recv.Dyn)
+			rv.T = recv.Dyn
+			rv = a.recvThroughPath(st, rv, path, nil, pos)
 			return a.callStatic(fn, append([]Val{rv}, args...), nil, st, pos, sig)
 		}
 	}
@@ -461,8 +526,14 @@ func (a *Activation) invoke(recv Val, m *types.Func, args []Val, sig *types.Sign
 	if cons := t.eng.con.Funcs[iname]; len(cons) > 0 {
 		return a.opaqueWithContract(cons[0], recv, m.Name(), args, sig, st, pos)
 	}
-	// 3. closed world of module types implementing the interface
+	// 3. closed world of module types implementing the interface, or the candidates named by a
+	//    'dyntype' clause of the contract under verification (the residual branch stays opaque)
 	cands := t.eng.implementers(IT)
+	hinted := false
+	if hc := a.hintedTypes(IT); len(hc) > 0 {
+		cands = hc
+		hinted = true
+	}
 	if len(cands) == 0 {
 		// opaque method call
 		fv := Val{K: KFunc, S: t.mthTerm(m.Name(), recv.S)}
@@ -481,7 +552,7 @@ func (a *Activation) invoke(recv Val, m *types.Func, args []Val, sig *types.Sign
 		tag := t.eng.tagOf(CT)
 		cond := sEq(sApp(t.ifTag(), recv.S), sInt(int64(tag)))
 		conds = append(conds, cond)
-		fn := t.eng.methodOf(CT, m)
+		fn, path := t.eng.methodOfPath(CT, m)
 		if fn == nil {
 			continue
 		}
@@ -489,6 +560,7 @@ func (a *Activation) invoke(recv Val, m *types.Func, args []Val, sig *types.Sign
 		bst.pc = t.namedPc(sAnd(st.pc, cond))
 		rv := t.unbox(bst, recv, CT)
 		rv.T = CT
+		rv = a.recvThroughPath(bst, rv, path, nil, pos)
 		out, res := a.callStatic(fn, append([]Val{rv}, args...), nil, bst, pos, sig)
 		if out == nil || out.dead {
 			continue
@@ -497,8 +569,21 @@ func (a *Activation) invoke(recv Val, m *types.Func, args []Val, sig *types.Sign
 		pcs = append(pcs, out.pc)
 		results = append(results, res)
 	}
-	// the dynamic type must be one of the module's implementers (closed world): obligation
-	a.obligeSafety(st, "dyntype", "closed-world dispatch of "+iname, sOr(conds...), pos)
+	if hinted {
+		// residual branch: any other implementation is a call into unknown code
+		rst := st.clone()
+		rst.pc = t.namedPc(sAnd(st.pc, sNot(sOr(conds...))))
+		fv := Val{K: KFunc, S: t.mthTerm(m.Name(), recv.S)}
+		out, res := a.opaqueCall(fv, args, sig, rst, pos, iname)
+		if out != nil && !out.dead {
+			edges = append(edges, mergeEdge{out.pc, out})
+			pcs = append(pcs, out.pc)
+			results = append(results, res)
+		}
+	} else {
+		// the dynamic type must be one of the module's implementers (closed world): obligation
+		a.obligeSafety(st, "dyntype", "closed-world dispatch of "+iname, sOr(conds...), pos)
+	}
 	out := t.mergeStates(edges)
 	if out == nil {
 		return nil, nil
@@ -577,20 +662,53 @@ func (e *Eng) implementers(IT types.Type) []types.Type {
 
 // methodOf finds the function implementing method m for dynamic type T (generic origin).
 func (e *Eng) methodOf(T types.Type, m *types.Func) *ssa.Function {
-	obj, _, _ := types.LookupFieldOrMethod(T, true, m.Pkg(), m.Name())
+	fn, _ := e.methodOfPath(T, m)
+	return fn
+}
+
+// methodOfPath also returns the embedding path (field indices) from T to the method's receiver.
+func (e *Eng) methodOfPath(T types.Type, m *types.Func) (*ssa.Function, []int) {
+	obj, index, _ := types.LookupFieldOrMethod(T, true, m.Pkg(), m.Name())
 	fo, ok := obj.(*types.Func)
 	if !ok {
-		return nil
-	}
-	// promoted through embedding? then build via the method set (wrapper); generic receivers need origin.
-	sel := e.prog.MethodSets.MethodSet(T).Lookup(m.Pkg(), m.Name())
-	if sel != nil && !hasTypeParam(T) {
-		if fn := e.prog.MethodValue(sel); fn != nil {
-			return fn
-		}
+		return nil, nil
 	}
 	fn := e.prog.FuncValue(fo.Origin())
-	return fn
+	if len(index) > 0 {
+		index = index[:len(index)-1]
+	}
+	return fn, index
+}
+
+// recvThroughPath loads the embedded receiver along path (as Go's promoted-method wrappers do).
+func (a *Activation) recvThroughPath(st *State, rv Val, path []int, want types.Type, pos token.Pos) Val {
+	t := a.t
+	cur := rv
+	for _, fi := range path {
+		switch cur.K {
+		case KRef:
+			T := derefType(cur.T)
+			s := structOf(T)
+			if s == nil {
+				t.errorf("embedding path through non-struct %s", cur.T)
+				return cur
+			}
+			f := s.Field(fi)
+			prefix, ref, idx := locOf(cur, T)
+			a.nilCheck(cur, st, pos, "embedded "+f.Name())
+			if kindOfType(f.Type()) == KStruct {
+				cur = Val{K: KRef, T: types.NewPointer(f.Type()), S: ref, Loc: &Loc{Prefix: prefix + "." + f.Name(), Idx: idx}}
+			} else {
+				cur = t.loadAt(st, prefix, "."+f.Name(), ref, idx, f.Type())
+			}
+		case KStruct:
+			cur = cur.Fields[fi]
+		default:
+			t.errorf("embedding path through %s", cur.K)
+			return cur
+		}
+	}
+	return cur
 }
 
 // ---- builtins ----
